@@ -69,3 +69,86 @@ Example C09_ex_ok :                          (* select a from t where a != 1 *)
   = POk (SSelect (mkSelect [mkDC (SPExpr (EVal (XCol (mkCol "" "a")))) ""] [TRName "t" None]
                    (Some (EPred (XCol (mkCol "" "a")) CNeq (XLit (VInt 1)))) [] [] false false 0 0)).
 Proof. vm_compute. reflexivity. Qed.
+
+(* ---- oracle soundness (Proofs/ParseOracle.v): the SM oracles of the correspondence runs
+        (tools/props/c09.py: parse_case_spec / tokens_case_spec / enum_case_spec, "Go neither panicked
+        nor hung") accept the model's own behaviour; hence on every case on which the model agrees
+        with Go (MM) the oracle accepts what Go did (SM) - a consequence of C09_total /
+        C09_parser_total. For ALL cases, no bound on sizes.
+        parse / tokens: no hypothesis. enum: the run-length encoding has no run of length 0
+        (`rle_runs_nonempty`; the Go encoder emits runs j - i >= 1). The oracle reads the runs
+        unexpanded, the model comparison expands them, so a zero-length run of class 100 is rejected
+        by the oracle and invisible to the model: C09_enum_hypothesis_needed. ---- *)
+From Mkdb Require Import Spec.ParseObs Proofs.ParseOracle.
+
+Theorem C09_agreement_implies_acceptance_parse : forall c,
+  parse_case_model c = true -> parse_case_spec c = true.
+Proof. exact parse_agreement_implies_acceptance. Qed.
+Print Assumptions C09_agreement_implies_acceptance_parse.
+
+Theorem C09_agreement_implies_acceptance_tokens : forall c,
+  tokens_case_model c = true -> tokens_case_spec c = true.
+Proof. exact tokens_agreement_implies_acceptance. Qed.
+Print Assumptions C09_agreement_implies_acceptance_tokens.
+
+Theorem C09_agreement_implies_acceptance_enum : forall c,
+  rle_runs_nonempty c = true -> enum_case_model c = true -> enum_case_spec c = true.
+Proof. exact enum_agreement_implies_acceptance. Qed.
+Print Assumptions C09_agreement_implies_acceptance_enum.
+
+(* the oracles accept what the model itself does (gout_of writes a model outcome as an observation;
+   model_rle is the model's own enumeration, one run per sequence) *)
+Theorem C09_oracle_accepts_model_parse : forall raws,
+  parse_case_model (raws, wrap raws, gout_of (parse_pipeline raws)) = true /\
+  parse_case_spec (raws, wrap raws, gout_of (parse_pipeline raws)) = true.
+Proof. exact parse_oracle_accepts_model. Qed.
+Print Assumptions C09_oracle_accepts_model_parse.
+
+Theorem C09_oracle_accepts_model_tokens : forall toks,
+  tokens_case_model (toks, gout_of (parse_tokens toks)) = true /\
+  tokens_case_spec (toks, gout_of (parse_tokens toks)) = true.
+Proof. exact tokens_oracle_accepts_model. Qed.
+Print Assumptions C09_oracle_accepts_model_tokens.
+
+Theorem C09_oracle_accepts_model_enum : forall vocab n prefix,
+  enum_case_model (vocab, n, prefix, model_rle vocab n prefix) = true /\
+  enum_case_spec (vocab, n, prefix, model_rle vocab n prefix) = true.
+Proof. exact enum_oracle_accepts_model. Qed.
+Print Assumptions C09_oracle_accepts_model_enum.
+
+Example C09_enum_hypothesis_needed :
+  let c : enum_case := ([], O, [], [(100%Z, 0%N); (class_of (parse_tokens []), 1%N)]) in
+  enum_case_model c = true /\ enum_case_spec c = false /\ rle_runs_nonempty c = false.
+Proof. exact enum_zero_run_needed. Qed.
+
+(* non-vacuity: concrete cases on which the model agrees (so the theorems apply), and observations
+   the oracles reject *)
+Local Open Scope Z_scope.
+Example C09_ex_agreement_parse :             (* select a FROM t where a != 1, observed: the tree *)
+  let c : parse_case :=
+    ([mkRaw RIdent "select" false; mkRaw RIdent "a" false; mkRaw RIdent "FROM" false;
+      mkRaw RIdent "t" false; mkRaw RIdent "where" false; mkRaw RIdent "a" false;
+      mkRaw ROther "!" true; mkRaw ROther "=" false; mkRaw RInt "1" false],
+     [mkTok 59 "select"; mkTok 0 "a"; mkTok 38 "FROM"; mkTok 0 "t"; mkTok 76 "where"; mkTok 0 "a";
+      mkTok 13 "!"; mkTok 2 "1"],
+     GOk (SSelect (mkSelect [mkDC (SPExpr (EVal (XCol (mkCol "" "a")))) ""] [TRName "t" None]
+                   (Some (EPred (XCol (mkCol "" "a")) CNeq (XLit (VInt 1)))) [] [] false false 0 0))) in
+  parse_case_model c = true /\ parse_case_spec c = true.
+Proof. vm_compute. split; reflexivity. Qed.
+
+Example C09_ex_agreement_tokens :            (* SELECT 1 AND 2 as a TokenList: a syntax error (class 1) *)
+  let toks := [mkTok 59 ""; mkTok 2 "1"; mkTok (lookup_code "AND") ""; mkTok 2 "2"] in
+  tokens_case_model (toks, GErr 1) = true /\ tokens_case_spec (toks, GErr 1) = true /\
+  tokens_case_model (toks, GPanic) = false /\ tokens_case_spec (toks, GPanic) = false /\
+  tokens_case_spec (toks, GTimeout) = false.
+Proof. vm_compute. repeat split; reflexivity. Qed.
+
+Example C09_ex_agreement_enum :              (* SELECT a followed by every pair over {a, FROM, ','} *)
+  let vocab := [mkTok 0 "a"; mkTok 38 ""; mkTok 26 ""] in
+  let good : enum_case := (vocab, 2%nat, [mkTok 59 ""; mkTok 0 "a"],
+                           [(0, 1%N); (2, 2%N); (0, 1%N); (2, 2%N); (0, 1%N); (2, 2%N)]) in
+  let hung : enum_case := (vocab, 2%nat, [mkTok 59 ""; mkTok 0 "a"],
+                           [(0, 1%N); (2, 2%N); (0, 1%N); (101, 1%N); (2, 1%N); (0, 1%N); (2, 2%N)]) in
+  rle_runs_nonempty good = true /\ enum_case_model good = true /\ enum_case_spec good = true /\
+  rle_runs_nonempty hung = true /\ enum_case_model hung = false /\ enum_case_spec hung = false.
+Proof. vm_compute. repeat split; reflexivity. Qed.
